@@ -17,7 +17,7 @@ VARIABLES phase, dump, v, tail, rep
 vars == <<phase, dump, v, tail, rep, ps>>   \* ps (Pipeline's variable) is not used: streams are folded with RunAll
 
 NoV == [ind |-> <<>>, find |-> <<"t">>, blankind |-> FALSE]
-NoRep == [nops |-> 0]
+NoRep == [nops |-> 0, pre |-> 0]
 
 Init == /\ phase = "gen" /\ dump = <<>> /\ v = NoV /\ tail = "eof" /\ rep = NoRep /\ ps = PS0
 
@@ -51,13 +51,15 @@ SecChoices(nops) == Regular(nops) \cup UNION {{InsForeign(q, k) : k \in 1..(Len(
 GenOps == /\ Mode = "race" /\ phase = "gen" /\ rep.nops = 0
           /\ \E nops \in 2..MaxG : \E nfr \in [1..nops -> 1..MaxFr] : \E kinds \in [1..nops -> {"r","w"}] :
                rep' = [nops |-> nops, nfr |-> nfr, ids |-> [i \in 1..nops |-> IdPool[i]], kinds |-> kinds,
-                       secs |-> <<>>, cfr |-> <<>>, cst |-> <<>>]
+                       secs |-> <<>>, cfr |-> <<>>, cst |-> <<>>, pre |-> 0]
           /\ UNCHANGED <<phase, dump, v, tail>>
 GenSecs == /\ Mode = "race" /\ phase = "gen" /\ rep.nops > 0
            /\ \E secs \in SecChoices(rep.nops) :
               \E cfr \in [1..Len(secs) -> 1..MaxFr] : \E cst \in [1..Len(secs) -> {"running","finished"}] :
               \E t \in {"eof", "junk", "blankjunk"} :
-                /\ rep' = [rep EXCEPT !.secs = secs, !.cfr = cfr, !.cst = cst]
+                \* pre = 1: a stray separator line (a banner, a leftover footer) directly in front of the report
+                /\ \E p \in (IF \E j \in 1..Len(secs) : secs[j] = 0 THEN {0} ELSE {0, 1}) :
+                     rep' = [rep EXCEPT !.secs = secs, !.cfr = cfr, !.cst = cst, !.pre = p]
                 /\ tail' = t
            /\ phase' = "done" /\ UNCHANGED <<dump, v>>
 
@@ -65,8 +67,9 @@ Next == (AddG \/ FinishDump \/ GenOps \/ GenSecs) /\ UNCHANGED ps
 Spec == Init /\ [][Next]_vars
 
 ---------------------------------------------------------------------------
+Pre == IF Mode = "race" THEN rep.pre ELSE 0
 Lines == IF Mode = "dump" THEN PrintDump(dump, v) \o TailLines(v, tail)
-         ELSE PrintReport(rep) \o TailLines(NoV, tail)
+         ELSE (IF rep.pre = 1 THEN <<Lin("rsep", <<>>, Tk(""))>> ELSE <<>>) \o PrintReport(rep) \o TailLines(NoV, tail)
 Foreign == Mode = "race" /\ HasForeign(rep)
 Expected == IF Mode = "dump" THEN ExpectDump(dump)
             ELSE IF Foreign THEN ExpectReport(UpToForeign(rep)) ELSE ExpectReport(rep)
@@ -86,9 +89,10 @@ Fidelity ==
         blankAfter == tail \in {"blankeof", "blankjunk"} /\ Mode = "dump"
         lastUnav == Mode = "dump" /\ dump[Len(dump)].nfr = 0 /\ ~dump[Len(dump)].created
     IN /\ c.snap = Expected
-       /\ c.fwd = <<>> /\ c.k1 = <<>>
+       \* a stray separator in front is released (forwarded) when the report's own separator arrives
+       /\ c.fwd = [i \in 1..Pre |-> i] /\ c.k1 = [i \in 1..Pre |-> i]
        /\ Foreign => c.err = "parse"          \* C08: an error, never a misattribution (Expected holds no frame of it)
-       /\ ~Foreign => c.cons = [i \in 1..(nd + (IF blankAfter THEN 1 ELSE 0)) |-> i]
+       /\ ~Foreign => c.cons = [i \in 1..(nd + (IF blankAfter THEN 1 ELSE 0)) |-> Pre + i]
        /\ ~Foreign => c.err = (IF Mode = "race" THEN ""
                    ELSE IF tail \in {"eof", "blankeof"} THEN "eof"
                    ELSE IF v.ind # <<>> /\ tail \in {"junk", "blankjunk"} THEN "indent"
@@ -97,6 +101,6 @@ Fidelity ==
        /\ ~Foreign => \A i \in 2..Len(FC) : FC[i].snap = <<>> /\ FC[i].cons = <<>>
 
 CaseJson == LET L == Lines IN
-  ToJson([mode |-> Mode, lines |-> L, calls |-> FinalCallsOf(RunAll(L)), ndump |-> NDump, pp |-> PP(FinalCallsOf(RunAll(L)))])
+  ToJson([mode |-> Mode, lines |-> L, calls |-> FinalCallsOf(RunAll(L)), ndump |-> NDump, pre |-> Pre, pp |-> PP(FinalCallsOf(RunAll(L)))])
 Emit == phase = "done" => PrintT("CASE " \o CaseJson)
 =============================================================================
